@@ -219,7 +219,7 @@ class C13(core.Check):
         'amb:key-vs-relative-address', 'amb:decorated-register-vs-numeric', 'amb:implied-operand-entry-vs-shorter-variant',
         'amb:out-of-range-literal-with-later-accepting-candidate', 'primer:earlier-statement-took-a-later-variant', 'amb:listed-combination-named-like-the-disallowed-pair', 'amb:index-key-vs-index-expression', 'amb:register-that-reads-as-a-number',
         'amb:register-vs-numeric-enumeration', 'amb:register-vs-numeric-enumeration-with-argument-table-only',
-        'amb:key-that-stands-for-0-vs-label', 'operator-inside-bracketed-or-indexed-form']}
+        'amb:key-that-stands-for-0-vs-label', 'operator-inside-bracketed-or-indexed-form', 'reject:empty-operand-beside-a-comma']}
 
     def gen_isa(self, rng, force_empty=False, force_dp=False, force_ne=False, force_idx=False):
         self._dp_pair = None
@@ -592,6 +592,15 @@ class C13(core.Check):
                 mn = rng.choice(['Amb', 'aMb', 'amB'])
                 tags.add('mnemonic:mixed')
             text = mn + (' ' + ', '.join(o['text'] for o in operands) if operands else '')
+            if kind == 'ACCEPT' and operands and '"type": "empty"' not in json.dumps(isa) and (i % 7 == 2 or rng.random() < 0.08):
+                # a comma with nothing on one side of it is an operand nobody wrote: no variant takes the statement
+                ots_ = [o['text'] for o in operands]
+                shape_ = [lambda t_: ', '.join(t_) + ',', lambda t_: ', ' + ', '.join(t_), lambda t_: t_[0] + ', , ' + ', '.join(t_[1:] or ['5']),
+                          lambda t_: ', '.join(t_) + ' ,', lambda t_: ',' + ','.join(t_)][i % 5]
+                text = mn + ' ' + shape_(ots_)
+                kind = 'REJECT'
+                exp = None
+                tags = {'reject:empty-operand-beside-a-comma'}
             # a primer: an earlier statement of the same mnemonic that a LATER variant takes - which variant a statement gets
             # never depends on the statements before it
             primer = ''
